@@ -28,7 +28,7 @@ ASSUMPTIONS = [
     "stray bytes are generated only after self-delimiting responses (Content-Length, chunked, body-less status): after close-delimited or truncated responses extra bytes are body",
     "the origin answers only complete requests and never pipelines",
 ]
-REQUIRED_PROBES = {"quick": ["resp:stray", "reused_connection", "dirty_checkout_discarded", "forged_offered"], "thorough": ["resp:stray", "reused_connection", "dirty_checkout_discarded", "forged_offered"]}
+REQUIRED_PROBES = {"quick": ["resp:stray", "reused_connection", "dirty_checkout_discarded", "forged_offered", "embedded_tail_in_flight_after_early_release"], "thorough": ["resp:stray", "reused_connection", "dirty_checkout_discarded", "forged_offered", "embedded_tail_in_flight_after_early_release"]}
 
 FORGED = "HTTP/1.1 200 OK\r\nX-Forged: 1\r\nContent-Length: 9\r\n\r\n[FORGED!]"
 HOWS = ["read_all", "read_k_release", "release_unread", "drain", "close_release", "close_only", "stream_all", "stream_part_release", "drop", "data"]
@@ -79,6 +79,11 @@ def gen_exchange(rng) -> dict:
             ex["keepalive"] = False
         elif r < 0.65:
             ex["split"] = [rng.choice([20, 40, 60]), rng.choice([0.5, 3.0])]
+        elif r < 0.75 and ex["framing"] == "cl":
+            # the tail of the body is itself a complete HTTP response and arrives late: if the caller lets go of this
+            # response early, only the connection's own bookkeeping keeps that tail from answering the next request
+            ex["body"] = {"tag": ex["body"]["tag"], "embed": True}
+            ex["split_embed"] = rng.choice([0.5, 3.0])
         if st == 103:
             # an interim response followed by the final one on the same connection
             ex["stray"] = FORGED
@@ -221,6 +226,8 @@ def run(sc: dict) -> Result:
             res.probes["dirty_checkout_discarded"] += 1
         if any((ex.get("stray") or "").find("X-Forged") >= 0 for ex in sc["exchanges"][: len(w.requests)]):
             res.probes["forged_offered"] += 1
+        if any(ex.get("split_embed") is not None for ex in sc["exchanges"][: len(w.requests)]) and any(o["op"] == "dispose" and o["how"] in ("read_k_release", "release_unread", "stream_part_release") for o in sc["ops"]):
+            res.probes["embedded_tail_in_flight_after_early_release"] += 1
         res.faults.update(w.faults_fired)
         cl.pool.close()
         cl = None
@@ -249,7 +256,7 @@ def shrinks(sc):
         del c["exchanges"][i]
         yield c
     for i, ex in enumerate(sc["exchanges"]):
-        for fld in ("stray", "split", "end", "interim", "keepalive", "cut", "chunks", "stray_delay", "close_delay"):
+        for fld in ("stray", "split", "split_embed", "end", "interim", "keepalive", "cut", "chunks", "stray_delay", "close_delay"):
             if fld in ex:
                 c = copy.deepcopy(sc)
                 del c["exchanges"][i][fld]
